@@ -258,14 +258,24 @@ func ruleRRCManager(c *Ctx, r *Report) {
 			continue
 		}
 		m++
-		okSite := k == "(dtls.returnRoutabilityConn).WriteRRC" || k == "(*dtls.Conn).writePacketsWithResultLocked"
-		r.Check(okSite, rule3, "WriteToContext<-"+k, c.ipos(s.Call), "known datagram write site", "a new datagram write site: writes to a candidate address must pass the amplification reserve")
-		if k == "(*dtls.Conn).writePacketsWithResultLocked" {
-			// target is the validated peer address
-			call := s.Call.(*ssa.Call)
-			ls := c.Origins(call.Call.Args[len(call.Call.Args)-1], 0)
-			r.Check(allLeaves(ls, func(v ssa.Value) bool { return isCallResult(v, nameIs("(*dtls.Conn).prepareRawPacketsTracked")) }), rule3, k+":target", c.ipos(call), "ordinary traffic goes to Conn.rAddr (returned under lock by prepareRawPacketsTracked)", "ordinary traffic is written to an address that is not the connection's validated peer address")
+		call, isCall := s.Call.(*ssa.Call)
+		if !isCall {
+			r.Bad(rule3, "WriteToContext<-"+k, c.ipos(s.Call), "datagram write via go/defer")
+			continue
 		}
+		// either the target is the connection's validated peer address (returned under lock by
+		// prepareRawPacketsTracked / loaded from Conn.rAddr), or the write passed the reserve
+		ls := c.Origins(call.Call.Args[len(call.Call.Args)-1], 0)
+		toPeer := allLeaves(ls, func(v ssa.Value) bool {
+			return isCallResult(v, nameIs("(*dtls.Conn).prepareRawPacketsTracked")) || isFieldLoad(v, "dtls.Conn", "rAddr")
+		})
+		reserved := false
+		for _, rs := range findCalls(s.Fn, nameHasSuffix("rrc.Manager).Reserve")) {
+			if sameValue(rs.Call.Args[1], call.Call.Args[len(call.Call.Args)-1]) {
+				reserved = true // ordering and size are checked by reserve-before-write above
+			}
+		}
+		r.Check(toPeer || reserved, rule3, "WriteToContext<-"+k, c.ipos(call), map[bool]string{true: "written to the validated peer address", false: "written to a candidate address after Reserve"}[toPeer], "a datagram is written to an address that is neither the connection's validated peer address nor covered by the amplification reserve: "+c.describeAll(ls))
 	}
 	r.Floor(rule3+":write-sites", m, 2)
 	// received bytes are credited only for authenticated records
